@@ -166,6 +166,10 @@ fn judge_text_inner(ctx: &mut Ctx, kind: &str, s: &str, via_json: bool) {
         let entry = if via_json { "json" } else { "parse" };
         if let Some(p) = &o.panic {
             ctx.violate("C03", "panic", &format!("{entry}/{}", panic_sig(p)), || format!("{entry} panicked: {p}"), || json!({"kind": "text", "entry": entry, "kt": kt.name(), "text": s}));
+            // a text that has to be REJECTED (or accepted) got neither verdict
+            ctx.violate("C12", "text-neither-accepted-nor-rejected", &format!("{kind}/{entry}/{}", kt.name()), || format!("{entry}::<{}>({s:?}) panicked: {p}", kt.name()), || {
+                json!({"kind": "text", "entry": entry, "kt": kt.name(), "text": s, "mutation": kind})
+            });
             continue;
         }
         if o.res.is_ok() != want {
@@ -1042,6 +1046,34 @@ fn pool_check<KK: KeyKind>(ctx: &mut Ctx, states: &[Obs], scheme: Scheme, other_
 pub fn c15(ctx: &mut Ctx) {
     let q = ctx.quick();
     let opts = RunOpts { full_state_checks: true, keep_states: true };
+    // records at the size limit at the sequence numbers whose increment grows the encoding: whatever the
+    // library hands out there must still equal its decode-after-encode image
+    {
+        let mut n = 0u64;
+        for (kt, scheme) in kinds() {
+            let key = own_ref(scheme, OWN);
+            for seq in [127u64, 255, 65_535] {
+                for target in 297..=300usize {
+                    for op in [Op::SetUdp4(40_000), Op::Insert(b"x".to_vec(), Val::B(vec![9, 9, 9])), Op::SetTcpSocket("8.8.4.4:443".parse().unwrap())] {
+                        n += 1;
+                        if !ctx.mine(n) {
+                            continue;
+                        }
+                        let mut rec = Rec::minimal(key, seq);
+                        rec.map.insert(b"ip".to_vec(), Item::S(vec![8, 8, 4, 4]));
+                        rec.map.insert(b"tcp".to_vec(), Item::S(vec![0x01, 0xbb]));
+                        rec.map.insert(b"udp".to_vec(), Item::S(vec![0x9c, 0x40]));
+                        rec.map.insert(b"x".to_vec(), Item::S(vec![9, 9, 9]));
+                        if let Some(r2) = gen::pad_to(&rec, b"pad", target) {
+                            let h = mk_history(scheme, OWN, OTHER, &crate::hist::Init::Decode(r2.bytes()), vec![Step { op, signer: Signer::Own }]);
+                            run_hist_kt(ctx, kt, false, &h, &opts);
+                            ctx.count("c15.size-boundary-cases");
+                        }
+                    }
+                }
+            }
+        }
+    }
     let total = ctx.vol(if q { 160 } else { 12_000 });
     let ks = kinds();
     for i in 0..total {
@@ -1118,7 +1150,10 @@ pub fn c16(ctx: &mut Ctx) {
                     ctx.count("nodeid.codepoint-sweep");
                     for (path, r) in [("from_str", r1), ("from_value", r2)] {
                         match r {
-                            Err(p) => ctx.violate("C03", "panic", &format!("NodeId-json/{}", panic_sig(&p)), || format!("{sv:?}: {p}"), || json!({"kind": "nodeid", "input": sv})),
+                            Err(p) => {
+                                ctx.violate("C03", "panic", &format!("NodeId-json/{}", panic_sig(&p)), || format!("{sv:?}: {p}"), || json!({"kind": "nodeid", "input": sv}));
+                                ctx.violate("C16", "string-neither-accepted-nor-rejected", &format!("codepoint/{path}"), || format!("{sv:?}: {p}"), || json!({"kind": "nodeid", "input": sv}));
+                            }
                             Ok(ok) if ok != want => ctx.violate("C16", if want { "valid-hex-rejected" } else { "malformed-hex-accepted" }, &format!("codepoint/{path}"), || format!("U+{cp:04X} at {pos}: {sv:?} accepted={ok}"), || json!({"kind": "nodeid", "input": sv})),
                             _ => {}
                         }
@@ -1150,7 +1185,10 @@ pub fn c16(ctx: &mut Ctx) {
                     ctx.count("evaluations");
                     ctx.count("nodeid.multibyte-offsets");
                     match guard(|| serde_json::from_str::<NodeId>(&doc).is_ok()) {
-                        Err(p) => ctx.violate("C03", "panic", &format!("NodeId-json/{}", panic_sig(&p)), || format!("{sv:?}: {p}"), || json!({"kind": "nodeid", "input": sv})),
+                        Err(p) => {
+                            ctx.violate("C03", "panic", &format!("NodeId-json/{}", panic_sig(&p)), || format!("{sv:?}: {p}"), || json!({"kind": "nodeid", "input": sv}));
+                            ctx.violate("C16", "string-neither-accepted-nor-rejected", "multibyte", || format!("{sv:?}: {p}"), || json!({"kind": "nodeid", "input": sv}));
+                        }
                         Ok(true) => ctx.violate("C16", "malformed-hex-accepted", "multibyte", || format!("{sv:?}"), || json!({"kind": "nodeid", "input": sv})),
                         Ok(false) => {}
                     }
